@@ -207,4 +207,32 @@ DiagBaseWeak(B, WS)       == Weak(B, WS)
 DiagCombCons(B, facts, WS, extended) == ConsistentFor(Augment(B, facts, WS), WS, extended)
 DiagInfGrew(B, facts, WS) == InfSize(Augment(B, facts, WS), WS) > InfSize(B, WS)
 
+-----------------------------------------------------------------------------
+(* Formula trees (C10, C15): <<"var", name>> | <<"top">> | <<"bot">> |      *)
+(* <<"not", f>> | <<"and", l, r>> | <<"or", l, r>>, evaluated in world w of *)
+(* the signature sig (a sequence of atom names, first atom most significant)*)
+
+RECURSIVE Pow2(_)
+Pow2(n) == IF n = 0 THEN 1 ELSE 2 * Pow2(n - 1)
+AtomTrue(sig, a, w) ==
+    LET i == CHOOSE k \in DOMAIN sig : sig[k] = a
+    IN  ((w - 1) \div Pow2(Len(sig) - i)) % 2 = 1
+
+RECURSIVE EvalTree(_, _, _)
+EvalTree(f, sig, w) ==
+    CASE f[1] = "var" -> AtomTrue(sig, f[2], w)
+      [] f[1] = "top" -> TRUE
+      [] f[1] = "bot" -> FALSE
+      [] f[1] = "not" -> ~EvalTree(f[2], sig, w)
+      [] f[1] = "and" -> EvalTree(f[2], sig, w) /\ EvalTree(f[3], sig, w)
+      [] f[1] = "or"  -> EvalTree(f[2], sig, w) \/ EvalTree(f[3], sig, w)
+
+(* the semantic conditional of (B|A) over sig *)
+SemCond(B, A, sig) ==
+    [w \in 1..Pow2(Len(sig)) |->
+        IF ~EvalTree(A, sig, w) THEN 0 ELSE IF EvalTree(B, sig, w) THEN 1 ELSE 2]
+
+(* C15: inclusion-minimal members of a family of sets *)
+MinimalSets(F) == {a \in F : ~\E b \in F : b # a /\ b \subseteq a}
+
 =============================================================================
